@@ -110,9 +110,7 @@ def Ccfb.decP (b : Bytes) : Ccfb × Status :=
         | _, _ => ({}, .panic)
     | o => ({}, o.status)
 
-def Ccfb.dec (b : Bytes) : Out Ccfb :=
-  let (c, st) := Ccfb.decP b
-  st.toOut c
+def Ccfb.dec (b : Bytes) : Out Ccfb := (Ccfb.decP b).2.toOut (Ccfb.decP b).1
 
 def Ccfb.dest (c : Ccfb) : List Nat := c.blocks.map (·.media)
 
